@@ -406,12 +406,21 @@ def reuse_case(ctx, case):
     wc = wclass(g, sv, cv)
     eg = make_grid(g, sv, cv, balanced)
     handed = []
+    inplace = bool(case.get("inplace"))
+    if inplace:
+        wc += "/caller-lists-updated-in-place"
+    G, Lv = [], []          # caller-owned lists: with `inplace` the SAME two list objects are refilled for every tree and handed over again
     for name, levels, m in seq:
         grid, _ = grid_from_levels(a, b, levels)
         w = None
         with ctx.guard("B.hist.reuse", SITE_W, wc + "/reused-object-raises"):
             with quiet():
-                eg.set_grid(list(grid), list(levels))
+                if inplace:
+                    G[:] = list(grid)
+                    Lv[:] = list(levels)
+                    eg.set_grid(G, Lv)
+                else:
+                    eg.set_grid(list(grid), list(levels))
                 w_ref = eg.get_weights()
                 w_again = [float(x) for x in eg.get_weights()]
             w = [float(x) for x in w_ref]
@@ -437,6 +446,10 @@ def history_pass(ctx, intervals):
             case = {"kind": "reuse", "object": "extrapolation", "a": a, "b": b, "grouping": g, "slice": sv, "container": cv, "balanced": balanced}
             ctx.case(case)
             reuse_case(ctx, case)
+            if not balanced:
+                case = dict(case, inplace=True)
+                ctx.case(case)
+                reuse_case(ctx, case)
         case = {"kind": "reuse", "object": "balanced", "a": a, "b": b}
         ctx.case(case)
         reuse_case(ctx, case)
